@@ -87,6 +87,8 @@ def ds_check(pid, kind, fam, mc, tier, seed, gen_quick, gen_thorough, what):
     hist, steps = (3, 60) if tier == "quick" else (4, 300)
     for s in seeds(seed, nseed):
         shards.append(["-family", fam, "-seed", str(s), "-hist", str(hist), "-steps", str(steps)])
+        # multi-operation transactions, a third of them focused on one key/member
+        shards.append(["-family", fam + "multi", "-seed", str(s), "-hist", str(hist), "-steps", str(steps)])
     rs = core.drive_and_validate(res, shards, core.dev_set(), what,
                                  "exhaustive %s transitions (tx and exported type) + random %s histories" % (kind, fam))
     res.cov["samples"] = core.sample_events(path, 3) + core.sample_events(rs[0]["trace"], 6, ops=None)[3:]
@@ -264,6 +266,47 @@ def c16(tier, seed):
     return res.finish()
 
 
+def c04(tier, seed):
+    res = Result("C04", tier, seed)
+    core.build()
+    q = tier == "quick"
+    for name in ("NutsMC_kv", "NutsMC_ls", "NutsMC_st", "NutsMC_zs"):
+        mc_cfg(res, name, inv=["TypeOK"], props=["BucketIsolation"], consts=None if q else {"MaxTx": "= 3"}, timeout=1800)
+    fams = [("iso", []), ("isokv", ["-mode", "keyval"]), ("isokv", ["-mode", "keyonly"])] + SPARSE_ISO
+    shards = fam_shards(fams, seed, 2 if q else 20, 3 if q else 4, 40 if q else 100)
+    rs = core.drive_and_validate(res, shards, core.dev_set(), "a write to one bucket changed what a read of another bucket returns (or a bucket does not return its own data)",
+                                 "histories over adversarial bucket names ('a','ab','','a|b','b' with keys such that bucket+key concatenations coincide) for KV, lists, sets and sorted sets, with a full observation of every bucket after every transaction")
+    res.cov["samples"] = core.sample_events(rs[0]["trace"], 4, ops={"obs"})
+    res.cov["distinct_nontrivial"] = res.extra.get("events_by_op", {}).get("obs", 0)
+    res.cov["rule"] = ("non-trivial = full observations of every bucket of every structure taken after a transaction; TLC compares each with the model, "
+                       "in which a commit changes only the buckets its records name (action property BucketIsolation, model-checked)")
+    return res.finish()
+
+
+SPARSE_ISO = []
+
+
+def c19(tier, seed):
+    res = Result("C19", tier, seed)
+    core.build()
+    q = tier == "quick"
+    # the specification has no option-dependent behaviour: the design itself is checked as for C01/C08
+    mc_cfg(res, "NutsMC_kv", inv=["MCReopenInv", "TypeOK"], props=[], timeout=1800)
+    shards = fam_shards([("productkv", []), ("product", [])] + SPARSE_PRODUCT, seed, 1 if q else 12, 2 if q else 3, 30 if q else 80)
+    rs = core.drive_and_validate(res, shards, core.dev_set(), "the same call sequence gave a different result under another RWMode/StartFileLoadingMode/SyncEnable/RAM index mode",
+                                 "product runs: the same seeded history executed under every combination of RWMode x StartFileLoadingMode x SyncEnable (x both RAM index modes for KV histories, with merges), compared event by event")
+    res.cov["samples"] = core.sample_events(rs[0]["trace"], 5, ops={"get", "obs", "open", "commit"})
+    res.cov["distinct_nontrivial"] = res.cov["evaluations"]
+    res.extra["configurations_per_history"] = {"productkv": 16, "product": 8}
+    res.cov["rule"] = ("every event carries one digest of (operation, arguments, results) per configuration; TLC requires all digests equal (AltOK) "
+                       "and the first configuration's event to be a step of Nuts.tla; evaluations = events compared across all configurations")
+    res.assumptions += ["digests are computed by the driver (sha1 of the normalised event); their equality is judged by TLC"]
+    return res.finish()
+
+
+SPARSE_PRODUCT = []
+
+
 def c15(tier, seed):
     res = Result("C15", tier, seed)
     core.build()
@@ -282,7 +325,7 @@ def c15(tier, seed):
     return res.finish()
 
 
-CHECKS = {"C10": c10, "C11": c11, "C16": c16, "C09": c09, "C15": c15, "C01": c01, "C05": c05, "C06": c06, "C07": c07, "C08": c08, "C12": c12, "C13": c13}
+CHECKS = {"C19": c19, "C04": c04, "C10": c10, "C11": c11, "C16": c16, "C09": c09, "C15": c15, "C01": c01, "C05": c05, "C06": c06, "C07": c07, "C08": c08, "C12": c12, "C13": c13}
 
 
 def main(argv):
